@@ -523,6 +523,18 @@ def enumerate_write_cases(tier):
                            "rgo_kind": rg, "rgo": rgo_for(rg, rows)}
 
 
+    # partition column NAMES that are not identifiers (hyphen, space, dot, non-ASCII letters, leading digit, punctuation only, one
+    # character): a directory level is `name=text` for ANY column name without '/' and '='; the name must come back unchanged
+    for ni, names in enumerate(ODD_NAMES):
+        for kinds in (("int64", "str_plain")[:len(names)], ("str_num", "int64")[:len(names)]):
+            n += 1
+            rg = ["none", "int", "list"][n % 3]
+            rows = [6, 13][n % 2]
+            yield {"scheme": "hive",
+                   "keys": [{"name": nm, "kind": kd, "card": 2 + (n + i) % 2, "off": (1 + 2 * i) % 5} for i, (nm, kd) in enumerate(zip(names, kinds))],
+                   "rows": rows, "pattern": ["full", "diag"][n % 2], "nulls": False, "bundle": BUNDLES[n % 2], "unused": False,
+                   "rgo_kind": rg, "rgo": rgo_for(rg, rows)}
+
     # ROW INDEX WITH REPEATED LABELS: pd.concat of two frames without ignore_index, a constant index, a few scattered labels
     # (named index), an index equal to the first partition key; index dropped (write_index=False) and stored (True); the
     # multiset of rows must be preserved and every row must sit under its own key directory
@@ -544,6 +556,25 @@ def enumerate_write_cases(tier):
 
 # names one of which is a suffix / prefix / inner substring of another (never a value-column name of the bundles V0, V1 used with them)
 RELATED_NAMES = [("grid", "id"), ("ab", "b"), ("x", "xx"), ("year_month", "month"), ("kk", "k", "akkb")]
+
+
+# column names with characters outside [a-zA-Z_0-9] (never '/' or '=', never a value-column name of the bundles V0, V1)
+ODD_NAMES = [("sensor-id",), ("my key",), ("a.b",), ("r\u00e9gion",), ("1st",), ("\u00e9",), ("-",), ("k%",), ("\u65e5\u4ed8",), ("q",),
+             ("sensor-id", "id"), ("my key", "key2"), ("x.y", "x-y"), ("\u00e9t\u00e9", "n")]
+
+
+def name_chars(names):
+    """which kinds of characters outside the ASCII word characters occur in the partition column names"""
+    import re as _re2
+    cls = set()
+    for nm in names:
+        for ch in nm:
+            if _re2.fullmatch("[a-zA-Z_0-9]", ch):
+                continue
+            cls.add("non-ascii" if ord(ch) > 127 else {"-": "hyphen", " ": "space", ".": "dot"}.get(ch, "punct"))
+        if nm[:1].isdigit():
+            cls.add("leading-digit")
+    return "+".join(sorted(cls)) or "word"
 
 
 def name_relation(names):
@@ -582,6 +613,7 @@ def features_of(spec):
             "null_tail": bool(spec.get("null_tail_key")),
             "all_null_row_group_with_categorical_key": _null_row_group_hazard(spec),
             "names": "+".join(k["name"] for k in spec["keys"]), "name_relation": name_relation([k["name"] for k in spec["keys"]]),
+            "name_chars": name_chars([k["name"] for k in spec["keys"]]),
             "row_index": spec.get("row_index", "unique_range"), "write_index": bool(spec.get("write_index", False))}
 
 
@@ -703,7 +735,8 @@ def run_bounded(ctx):
                       "3 keys: 20 triples x 3 patterns; rows 1..60, null keys, unused categories, 4 value-column bundles "
                       "(int, float+NaN, str+None, bool, datetime, categorical, Int64, uint8); partition column NAMES containing one another "
                       "(grid+id, ab+b, x+xx, year_month+month, kk+k+akkb: suffix / prefix / inner substring) in both orders, hive, 3 kind "
-                      "combinations x 2 patterns, values differing between the columns; plus frames whose ROW INDEX HAS REPEATED LABELS (concat without ignore_index / constant / scattered named / equal to the first key) x write_index False|True x row_group_offsets none/int/list x 4 key tuples x hive|drill")
+                      "combinations x 2 patterns, values differing between the columns; partition column names that are not identifiers (hyphen, space, dot, non-ASCII letters, "
+                      "leading digit, punctuation only, one character: 14 name sets x 2 kind combinations, hive); plus frames whose ROW INDEX HAS REPEATED LABELS (concat without ignore_index / constant / scattered named / equal to the first key) x write_index False|True x row_group_offsets none/int/list x 4 key tuples x hive|drill")
     ctx.bounded_group(GM, rule="drill levels mixing re-typable and plain text, 5 value sets x PYTHONHASHSEED 0..3 (thorough 0..7) in child "
                       "processes; the case holds only if it holds under every hash seed")
 
